@@ -409,6 +409,9 @@ impl Cred {
                 extra.push("USERHASH");
             }
         }
+        if cur.realm.contains('\u{a0}') {
+            ctx.count("lt.requests-under-non-opaquestring-realm");
+        }
         match raw.find(wire::T_REALM) {
             Some(a) if a.value == cur.realm.as_bytes() => {}
             Some(_) => wrong.push("REALM-value".into()),
